@@ -18,7 +18,7 @@ TASK_CAP_S = 240
 
 
 def configs_for(prop):
-    return ("baseline", "A", "AB", "grid") if prop in ("C09", "C11") else ("baseline", "calm", "A")
+    return ("baseline", "A", "AB", "grid") if prop in ("C09", "C11") else ("baseline", "calm", "A", "pairs")
 
 
 def _worker_init():
